@@ -29,25 +29,36 @@ func (e *Engine) reachable(roots []string) (map[*ssa.Function]*ssa.Function, []s
 	pred := map[*ssa.Function]*ssa.Function{}
 	var missing []string
 	var work []*ssa.Function
-	for _, r := range roots {
-		fn := e.funcs[r]
-		if fn == nil {
-			missing = append(missing, r)
-			continue
-		}
-		if _, ok := pred[fn]; !ok {
-			pred[fn] = nil
-			work = append(work, fn)
-		}
-	}
-	add := func(from, to *ssa.Function) {
+	pkgSeen := map[*ssa.Package]bool{}
+	var add func(from, to *ssa.Function)
+	add = func(from, to *ssa.Function) {
 		if to == nil || !e.isRepoFn(to) || to.Blocks == nil {
 			return
 		}
 		if _, ok := pred[to]; !ok {
 			pred[to] = from
 			work = append(work, to)
+			// the package initialiser (package-level variable initialisers, init functions) has run
+			// before any function of the package: whatever it computes can flow into the function
+			p := to.Pkg
+			if p == nil && to.Parent() != nil {
+				p = to.Parent().Pkg
+			}
+			if p != nil && !pkgSeen[p] {
+				pkgSeen[p] = true
+				if ini := p.Func("init"); ini != nil {
+					add(to, ini)
+				}
+			}
 		}
+	}
+	for _, r := range roots {
+		fn := e.funcs[r]
+		if fn == nil {
+			missing = append(missing, r)
+			continue
+		}
+		add(nil, fn)
 	}
 	for len(work) > 0 {
 		fn := work[len(work)-1]
@@ -158,6 +169,9 @@ func (e *Engine) effectInventory(name string, roots []string, forbidden []string
 				} else if sf := c.StaticCallee(); sf != nil {
 					if e.isRepoFn(sf) {
 						continue
+					}
+					if sf.Name() == "init" && sf.Synthetic != "" {
+						continue // a dependency's package initialiser, called from the repository package's own
 					}
 					key = sf.String()
 					con = e.byKey[key]
